@@ -356,6 +356,7 @@ class _P:
         self.expect(b'(')
         items: dict = {}
         order: list = []
+        pairs: list = []
         if self.peek() == 0x29:
             self.fail('empty msg-att list')
         while True:
@@ -437,9 +438,11 @@ class _P:
                 self.fail('unknown fetch item %r' % name)
             items[key] = val
             order.append(key)
+            pairs.append((key, val))
             if self.peek() == 0x29:
                 self.i += 1
                 items['_order'] = order
+                items['_pairs'] = pairs     # (items may repeat a name)
                 return items
             self.sp()
 
